@@ -3,6 +3,8 @@ mod util;
 mod model;
 mod refint;
 mod rulegen;
+mod bfs;
+mod formats;
 mod props;
 
 fn main() {
@@ -10,10 +12,15 @@ fn main() {
     let args: Vec<String> = std::env::args().collect();
     let cmd = args.get(1).map(|s| s.as_str()).unwrap_or("");
     let code = match cmd {
+        "C02" => props::c02::run(),
         "C03" => props::c03::run(),
         "C04" => props::c04::run(),
         "C05" => props::c05::run(),
         "C06" => props::c06::run(),
+        "C07" => props::c07::run(),
+        "C08" => props::c08::run(),
+        "C09" => props::c09::run(),
+        "C10" => props::c10::run(),
         "C18" => props::c18::run(),
         "rulegen-stats" => { rulegen_stats(); 0 }
         "try" => { try_rule(&args[2..]); 0 }
@@ -29,10 +36,15 @@ fn replay(path: &str) -> i32 {
     let pid = v["property"].as_str().unwrap_or("");
     println!("replaying {} :: {}", pid, v["key"].as_str().unwrap_or(""));
     let res = match pid {
+        "C02" => props::c02::replay(&v["case"]),
         "C03" => props::c03::replay(&v["case"]),
         "C04" => props::c04::replay(&v["case"]),
         "C05" => props::c05::replay(&v["case"]),
         "C06" => props::c06::replay(&v["case"]),
+        "C07" => props::c07::replay(&v["case"]),
+        "C08" => props::c08::replay(&v["case"]),
+        "C09" => props::c09::replay(&v["case"]),
+        "C10" => props::c10::replay(&v["case"]),
         "C18" => props::c18::replay(&v["case"]),
         _ => Err(format!("no replay for {pid}")),
     };
